@@ -83,7 +83,9 @@ def regex_method(ip, rx, name, args, kwargs):
         subj = cargs[0]
         if kind_of(ip, subj) != 'str':
             raise_('TypeError', 'expected string or bytes-like object')
-        if ctx.choice(f'{name}_{rid}'):
+        # whether a pattern matches is a function of the subject (uninterpreted)
+        fn = ufun(f'RE_{name.upper()}_{rid}', Str, Bool)
+        if ctx.branch(fn(str_term(ip, subj))):
             return Obj('match', regex=rx, subject=subj, concrete=None, groups={})
         return C(None)
     if name == 'sub':
